@@ -220,6 +220,15 @@ def horner (δ : Trig C) : Nat → List (Trig C) → Trig C
 /-- Taylor shift `f(φ + δ) = Σ_{k ≤ K} δ^k/k! · f^{(k)}(φ)`, evaluated in Horner form -/
 def shift (K : Nat) (f δ : Trig C) : Trig C := horner R δ 0 (derivs R f K)
 
+/-- `1/(1 + u) = Σ_{k ≤ K} (−u)^k` for `u` without constant term (`u^{K+1} = 0` in the truncated ring), Horner form -/
+def invOnePlus (u : Trig C) : Nat → Trig C
+  | 0 => const R.one
+  | K + 1 => sub R (const R.one) (mul R u (invOnePlus u K))
+
+/-- coefficient of `cos mφ` / `sin mφ` -/
+def cosCoef (p : Trig C) (m : Nat) : C := get R p.c m
+def sinCoef (p : Trig C) (m : Nat) : C := get R p.s m
+
 /-- the sine series `Σ_{l ≥ 1} a_l sin lφ` -/
 def sinSeries (a : List C) : Trig C := ⟨[], R.zero :: a⟩
 
